@@ -38,12 +38,12 @@ Covers(k) ==
      /\ \A i, j \in 1..Len(cls) : i # j => Members(cls[i]) \cap Members(cls[j]) = {}
 
 (* Implementation-shaped model of the recorded defect NUL-EPS (known_findings.json):
-   emerge builds `.`, \S \D \W, [:ascii:] and negated bracket groups over code
+   emerge builds `.`, \S \D \W, \P{..}, [:ascii:] and negated bracket groups over code
    points 0..127, and code point 0 is the automata library's epsilon symbol, so
    every such set is built as "the set, or nothing".  KnownShape rewrites a
    term accordingly; it predicts the exact footprint of the defect, so that a
    disagreement NOT explained by it is still reported as a new violation.    *)
-ItemNul(it) == it.t = "any" \/ (it.t = "cls" /\ it.n \in {"S", "D", "W", "ascii"})
+ItemNul(it) == it.t = "any" \/ (it.t = "cls" /\ (it.n \in {"S", "D", "W", "ascii"} \/ (Len(it.n) > 2 /\ SubSeq(it.n, 1, 2) = "P:")))   \* \P{..} is a complement over 0..127 too
 SetNul(f) == LET some == \E i \in 1..Len(f.s) : ItemNul(f.s[i]) IN IF f.neg THEN ~some ELSE some
 RECURSIVE KnownShapeT(_), KnownShapeF(_)
 KnownShapeF(f) ==
